@@ -23,7 +23,7 @@ for n in ns:
         print(prop, n, "PATCH DOES NOT APPLY", a.stderr[:200]); continue
     r1 = sh("/venv/bin/python out/demo%s.py" % n, timeout=600)
     ran.append("patched: demo exit %d (%s)" % (r1.returncode, (r1.stdout.strip().splitlines() or [''])[-1][:160]))
-    b = subprocess.run("python3 /tmp/mut/baseline_check.py %s" % wt, shell=True, capture_output=True, text=True)
+    b = subprocess.run("python3 /verif/tools/baseline_check.py %s" % wt, shell=True, capture_output=True, text=True)
     ran.append("patched: pinned suite: %s (exit %d)" % (b.stdout.strip().splitlines()[0] if b.stdout.strip() else '', b.returncode))
     sh("git checkout -- . ")
     ok = r0.returncode == 0 and r1.returncode != 0 and b.returncode == 0
